@@ -24,13 +24,13 @@ CHECKS = {
             'measured noise 4e-13), plus symmetry/PSD/tiling/pre-load/rigid-body consequences',
             'trusts vlib/ref/panel.py + vlib/ref/clt.py; kernels are the pre-built extensions (no Cython available), '
             'Python orchestration is live; series orders <= 8 against the quadrature reference (all four models, sub-intervals) and up to 30 against '
-            'the exact separable reference (plate, w-only plate, cylindrical panel, full width); one object re-used after its definition changes', '3 C02'),
+            'the exact separable reference (plate, w-only plate, cylindrical panel, full width); one object re-used after its definition changes; the pre-load law also on the numerically integrated route (state or laminate given explicitly)', '3 C02'),
     'C03': ('Hypothesis-generated panels/loads/states; differential oracle: Hessian of the pre-stress work with N given or '
             'N = A eps + B kappa of the state at the same Gauss points; metamorphic: superposition of unit loads, tiling, '
             'uniform-stress state == constant load, table-of-equal-laminates == uniform',
             'generated-input search over models x sub-intervals x placement x load triples (tension, shear, mixed) and, '
             'for the state path, Ritz states x Gauss orders 2..64 x uniform/per-point laminate tables (C / Fortran / transposed / strided memory '
-            'layouts); single, cancelling and generic load triples; series orders up to 30 against the exact separable reference; every matrix entry compared',
+            'layouts); single, cancelling and generic load triples; the uniform laminate handed over explicitly without a state; series orders up to 30 against the exact separable reference; every matrix entry compared',
             'trusts vlib/ref/panel.py; comparisons are scaled by a cancellation-free bound of the stress resultants', '3 C03'),
     'C04': ('Hypothesis-generated panels; differential oracle: kinetic-energy Hessian; invariants: total mass of rigid '
             'translations, positive definiteness; metamorphic: frequency invariance under a move of the reference surface',
@@ -49,7 +49,7 @@ CHECKS = {
     'C06': ('generated random SPD pencils with clustered spectra and package (k0,kM) pairs; oracles: residual, dense reference '
             'spectrum, sparse-vs-dense differential, mass-scaling relation, reduced-dof sub-problem',
             'generated-input search over sizes 6..400, null rows/columns, clusters closer than the old rounding granularity, '
-            'sort on/off, reduced_dof on/off, k=1..25, both paths, through analysis.freq and Panel.freq; structured mass matrices with zero-sum '
+            'sort on/off, reduced_dof on/off, k=1..25, both paths, through analysis.freq and Panel.freq; non-symmetric positive definite pencils with complex-conjugate pairs (eigenpair residual with the complex mode); structured mass matrices with zero-sum '
             'columns; stiffened bays; a Panel re-defined between two freq() calls; finding R6b (dense path, badly scaled K) matched by its signature',
             'trusts numpy/scipy dense eigen-solvers as reference; ARPACK start vectors are pinned', '3 C06'),
     'C07': ('Hypothesis-generated load sets and structures; metamorphic/virtual-work oracle against the package own field '
@@ -60,7 +60,7 @@ CHECKS = {
             'displacements at the force points come from the package field recovery (checked independently in C11)', '3 C07'),
     'C08': ('Hypothesis-generated states; differential oracle (reference fint/kT at the same Gauss points) + package-only '
             'oracles: Richardson finite difference of fint (exact for the cubic fint), closed-path work, small-state limit',
-            'generated-input search over plate/cpanel x B-coupled laminates x flags x states up to 5h x Gauss orders x laminate '
+            'generated-input search over plate/cpanel x B-coupled laminates x flags x states up to 5h (general, membrane-only, bending-only) x Gauss orders x laminate '
             'tables, and assemblies of 2..4 panels with all five connection kinds; the tangent is compared with the exact '
             'Jacobian of the package own internal force',
             'trusts vlib/ref/panel.py for the differential part; the Jacobian/closed-path parts use package outputs only', '3 C08'),
@@ -84,7 +84,7 @@ CHECKS = {
             'interface mismatch energy from geometric jump definitions; package-only energy identity through Panel.uvw; '
             'metamorphic laws for calc_kt_kr',
             'generated-input search over the five connection kinds, interface positions inside either panel, different sizes, '
-            'series orders, flags, kt/kr and either ordering of p1/p2 in the global vector (kernel level and through '
+            'series orders, flags, kt/kr, one or two connections between the same pair and either ordering of p1/p2 in the global vector (kernel level and through '
             'PanelAssembly.get_k0_conn); symmetry, PSD, linearity in kt/kr, exchange symmetry and moduli scaling of the constants, also on '
             'panel objects whose laminates were re-defined (finding R12a: the assembly never recomputes its connection matrix)',
             'jump definitions are stated in ASSUMPTIONS and cross-checked by the energy identity against the package own fields', '3 C12'),
@@ -125,7 +125,7 @@ CHECKS = {
     'C17': ('Hypothesis-generated states; package-only oracle: Richardson finite-difference Jacobian of calc_fint (exact for the cubic '
             'internal force on a fixed point set); invariants: symmetry, fint(0)=0, small-state limit, thread-count independence',
             'generated-input search over the 12 NL-capable shell models x cylinders/cones x laminates x states up to 3 thicknesses x '
-            'trapezoid/Simpson grids x 1..8 threads x imperfection on/off x load fraction x prescribed edge displacement, also at the all-zero '
+            'trapezoid/Simpson grids x 1..8 threads x imperfection on/off x load fraction x prescribed edge displacement x every pdC/pdT combination, also at the all-zero '
             'state; the four models whose tangent is not the Jacobian are '
             'matched by per-model findings, the other eight agree to 1e-8 of the non-linear part',
             'difference quotients are limited by the rounding of k0*c with 1e8 edge penalties (stated floor)', '3 C17'),
@@ -139,7 +139,7 @@ CHECKS = {
             'operators; metamorphic: flow-y == flow-x on the exchanged panel; dense non-Hermitian reference for Panel.freq',
             'generated-input search over flat / w-only / cylindrical panels, both flow directions, coefficients given directly or '
             'through Mach number (also as a sweep on one object), restrained and unrestrained flow edges, placement, pressure numbers 1e-14..1e3 '
-            'with the curvature part judged on its own scale, and stiffened bays whose coefficients are reset between calls',
+            'with the curvature part judged on its own scale, a sibling panel (one attribute different) evaluated first in the same process, both solver switches of Panel.freq, and stiffened bays whose coefficients are reset between calls',
             'gamma applies to curved panels only (statement); the damping coefficient derived inside calc_kA is not observable', '3 C19'),
     'C20': ('generated operation sequences (histories) interpreted on one shared object; model-based oracle: each answer must equal '
             'the first answer of a fresh twin object with the same definition; invariants: caller arrays unchanged, thread count irrelevant',
